@@ -215,4 +215,7 @@ class CrossRow:
         key = f"{func.qualname}|{stmt_text(stmt, 110) if stmt is not None else ir.show(term, maxdepth=3)}"
         if any(f.key == key for f in self.findings):
             return
-        self.findings.append(Finding(func, key, where, what, sorted(kinds)))
+        fd = Finding(func, key, where, what, sorted(kinds))
+        from .util import anon_locals
+        fd.anon = anon_locals(func, key)
+        self.findings.append(fd)
